@@ -733,6 +733,24 @@ impl FunctionDefinitions {
             r is Ok <==> self.min_args_count <= args@.len() <= self.max_args_count, // @obl EXPR.arity : C18
             r is Ok ==> r->Ok_0 == self.build_extractor.built(args@), // @obl EXPR.arity.built : C18 C13
 //@@ endfn
+//@@ fn fdef.names = src/functions_definitions.rs :: impl FunctionDefinitions :: fn names
+//@@ safety C13
+//@@ ret r
+//@@ rewrite vec_macro_empty
+//@@ header
+        ensures
+            // the names under which a function is entered into the table: its name, then every alias, nothing else
+            r@ == seq![self.name].add(self.aliases@), // @obl EXPR.names : C13
+//@@ loop 1 iter it
+            invariant
+                it.seq().len() == self.aliases@.len(), 0 <= it.index@ <= self.aliases@.len(),
+                forall|j: int| 0 <= j < it.seq().len() ==> *(#[trigger] it.seq()[j]) == self.aliases@[j],
+                vec@ == seq![self.name].add(self.aliases@.take(it.index@)),
+//@@ loop-start 1
+            proof { assert(self.aliases@.take(it.index@).push(self.aliases@[it.index@]) =~= self.aliases@.take(it.index@ + 1)); }
+//@@ after-loop 1
+        proof { assert(self.aliases@.take(self.aliases@.len() as int) =~= self.aliases@); }
+//@@ endfn
 }
 }
 
